@@ -17,15 +17,24 @@
    real run (the acquisition of _state_cond in which the state is read / written, the Event.set of
    the stop flag, the single deque operation on the settings slot).
 
-   Not modelled: EXCEPTION_WHILE_INSTANTIATING_TASK (then the constructor raises and no proxy
-   exists), what run() computes, wait_for_condition (C11), get_status, QMI_LoopTask. *)
+   The QMI_TaskRunner constructor is part of the system: field [ctor] says whether it is still running
+   (C_running: it blocks in wait_until_initialized, then — if the task constructor raised — in
+   thread.join()), has returned a runner (C_ok) or has raised QMI_TaskInitException (C_failed).  Its
+   completion is the external label [Ctor].  Every other external label needs ctor = C_ok (there is no
+   proxy before, and none at all after a failure).
+
+   Not modelled here: what run() computes, wait_for_condition (C11), get_status.  QMI_LoopTask.run's
+   period arithmetic is modelled separately in ModelLoop.v. *)
 From Coq Require Export List Arith Bool Lia.
 Export ListNotations.
 
 (* _TaskThread.State (without EXCEPTION_WHILE_INSTANTIATING_TASK) *)
 Inductive tstate :=
-| INITIAL | READY_TO_RUN | RUNNING | EXCEPTION_WHILE_RUNNING_TASK | TASK_COMPLETED_NORMALLY
-| TASK_STOPPED_BEFORE_START.
+| INITIAL | EXCEPTION_WHILE_INSTANTIATING_TASK | READY_TO_RUN | RUNNING | EXCEPTION_WHILE_RUNNING_TASK
+| TASK_COMPLETED_NORMALLY | TASK_STOPPED_BEFORE_START.
+
+(* the QMI_TaskRunner constructor *)
+Inductive cphase := C_running | C_ok | C_failed.
 
 (* where the task thread is in _TaskThread.run *)
 Inductive tpc :=
@@ -36,14 +45,16 @@ Inductive tpc :=
 | TP_done.     (* thread exited: Thread.join() returns *)
 
 Inductive ext (V : Type) :=
+| Ctor           (* the runner constructor completes: make_task returns a proxy or raises *)
 | Start | Stop | Join | IsRunning | SetSettings (v : V) | GetSettings | GetPending
 | Release.       (* release_rpc_object once the task has been joined: nothing to do *)
-Arguments Start {V}. Arguments Stop {V}. Arguments Join {V}. Arguments IsRunning {V}.
+Arguments Ctor {V}. Arguments Start {V}. Arguments Stop {V}. Arguments Join {V}. Arguments IsRunning {V}.
 Arguments SetSettings {V} v. Arguments GetSettings {V}. Arguments GetPending {V}.
 Arguments Release {V}.
 
 Inductive int :=
-| TInitDone         (* "if state == INITIAL: state = READY_TO_RUN" *)
+| TInitDone         (* task constructed: "if state == INITIAL: state = READY_TO_RUN" *)
+| TInitFail         (* task constructor raised (any BaseException): state = EXCEPTION_WHILE_INSTANTIATING_TASK *)
 | TBeginRun         (* woke up, saw RUNNING, invokes task.run() *)
 | TUpdate           (* QMI_Task.update_settings() *)
 | TPollStop         (* stop_requested() / the flag test of sleep() *)
@@ -59,11 +70,12 @@ Inductive out (V : Type) :=
 | ONone                       (* returned None *)
 | OUsageError                 (* raised QMI_UsageException *)
 | OTaskRunError               (* raised QMI_TaskRunException *)
+| OInitError                  (* make_task raised QMI_TaskInitException *)
 | OBool (b : bool)
 | OVal (v : V)                (* get_settings *)
 | OOpt (o : option V)         (* get_pending_settings *)
 | OUpd (b : bool) (v : V).    (* update_settings returned b; the task now holds v *)
-Arguments ONone {V}. Arguments OUsageError {V}. Arguments OTaskRunError {V}.
+Arguments ONone {V}. Arguments OUsageError {V}. Arguments OTaskRunError {V}. Arguments OInitError {V}.
 Arguments OBool {V} b. Arguments OVal {V} v. Arguments OOpt {V} o. Arguments OUpd {V} b v.
 
 Section Model.
@@ -76,50 +88,71 @@ Record st := mk {
   stop_flag : bool;        (* QMI_Task._stop_requested *)
   slot : option V;         (* QMI_Task._settings_fifo : deque(maxlen=1) *)
   cur : V;                 (* QMI_Task.settings *)
-  joined : bool            (* QMI_TaskRunner._joined *)
+  joined : bool;           (* QMI_TaskRunner._joined *)
+  ctor : cphase            (* the runner's constructor *)
 }.
 
 (* the state in which the QMI_TaskRunner constructor has just started the thread *)
-Definition init (v0 : V) : st := mk INITIAL TP_init 0 false None v0 false.
+Definition init (v0 : V) : st := mk INITIAL TP_init 0 false None v0 false C_running.
 
 Definition thread_done (s : st) : bool := match pc s with TP_done => true | _ => false end.
 
 Definition set_state (s : st) (x : tstate) : st :=
-  mk x (pc s) (run_count s) (stop_flag s) (slot s) (cur s) (joined s).
+  mk x (pc s) (run_count s) (stop_flag s) (slot s) (cur s) (joined s) (ctor s).
 Definition set_pc (s : st) (p : tpc) : st :=
-  mk (state s) p (run_count s) (stop_flag s) (slot s) (cur s) (joined s).
+  mk (state s) p (run_count s) (stop_flag s) (slot s) (cur s) (joined s) (ctor s).
 
 Definition is_running_state (x : tstate) : bool := match x with RUNNING => true | _ => false end.
 
+Definition set_ctor (s : st) (c : cphase) : st :=
+  mk (state s) (pc s) (run_count s) (stop_flag s) (slot s) (cur s) (joined s) c.
+
 Definition step_ext (s : st) (e : ext V) : option (st * out V) :=
-  match pc s with
-  | TP_init => None            (* the RPC worker is still inside the runner's constructor *)
-  | _ =>
-    match e with
-    | Start =>                 (* start(): get_state; refuse unless READY_TO_RUN; start_task *)
-        match state s with
-        | READY_TO_RUN => Some (set_state s RUNNING, ONone)
-        | _ => Some (s, OUsageError)
-        end
-    | Stop =>                  (* stop_task *)
-        match state s with
-        | INITIAL | READY_TO_RUN => Some (set_state s TASK_STOPPED_BEFORE_START, ONone)
-        | _ => Some (mk (state s) (pc s) (run_count s) true (slot s) (cur s) (joined s), ONone)
-        end
-    | Join =>                  (* thread.join(); get_state; _joined = True; re-raise *)
-        if thread_done s then
-          let s' := mk (state s) (pc s) (run_count s) (stop_flag s) (slot s) (cur s) true in
+  match e with
+  | Ctor =>                    (* QMI_TaskRunner.__init__ after thread.start() *)
+      match ctor s with
+      | C_running =>
           match state s with
-          | EXCEPTION_WHILE_RUNNING_TASK => Some (s', OTaskRunError)
-          | _ => Some (s', ONone)
+          | INITIAL => None                          (* wait_until_initialized() blocks *)
+          | EXCEPTION_WHILE_INSTANTIATING_TASK =>    (* thread.join(); raise QMI_TaskInitException *)
+              if thread_done s then Some (set_ctor s C_failed, OInitError) else None
+          | READY_TO_RUN => Some (set_ctor s C_ok, ONone)
+          | _ => None                                (* "assert state == READY_TO_RUN" *)
           end
-        else None
-    | IsRunning => Some (s, OBool (is_running_state (state s)))
-    | SetSettings v =>         (* deque(maxlen=1).append *)
-        Some (mk (state s) (pc s) (run_count s) (stop_flag s) (Some v) (cur s) (joined s), ONone)
-    | GetSettings => Some (s, OVal (cur s))
-    | GetPending => Some (s, OOpt (slot s))
-    | Release => if joined s then Some (s, ONone) else None
+      | _ => None
+      end
+  | _ =>
+    match ctor s with
+    | C_running | C_failed => None   (* no runner yet / no runner at all: nothing can be called *)
+    | C_ok =>
+      match e with
+      | Ctor => None
+      | Start =>                 (* start(): get_state; refuse unless READY_TO_RUN; start_task *)
+          match state s with
+          | READY_TO_RUN => Some (set_state s RUNNING, ONone)
+          | _ => Some (s, OUsageError)
+          end
+      | Stop =>                  (* stop_task *)
+          match state s with
+          | EXCEPTION_WHILE_INSTANTIATING_TASK => Some (s, ONone)
+          | INITIAL | READY_TO_RUN => Some (set_state s TASK_STOPPED_BEFORE_START, ONone)
+          | _ => Some (mk (state s) (pc s) (run_count s) true (slot s) (cur s) (joined s) (ctor s), ONone)
+          end
+      | Join =>                  (* thread.join(); get_state; _joined = True; re-raise *)
+          if thread_done s then
+            let s' := mk (state s) (pc s) (run_count s) (stop_flag s) (slot s) (cur s) true (ctor s) in
+            match state s with
+            | EXCEPTION_WHILE_RUNNING_TASK => Some (s', OTaskRunError)
+            | _ => Some (s', ONone)
+            end
+          else None
+      | IsRunning => Some (s, OBool (is_running_state (state s)))
+      | SetSettings v =>         (* deque(maxlen=1).append *)
+          Some (mk (state s) (pc s) (run_count s) (stop_flag s) (Some v) (cur s) (joined s) (ctor s), ONone)
+      | GetSettings => Some (s, OVal (cur s))
+      | GetPending => Some (s, OOpt (slot s))
+      | Release => if joined s then Some (s, ONone) else None
+      end
     end
   end.
 
@@ -127,10 +160,13 @@ Definition step_int (s : st) (i : int) : option (st * out V) :=
   match i, pc s with
   | TInitDone, TP_init =>
       Some (mk (match state s with INITIAL => READY_TO_RUN | x => x end)
-               TP_wait (run_count s) (stop_flag s) (slot s) (cur s) (joined s), ONone)
+               TP_wait (run_count s) (stop_flag s) (slot s) (cur s) (joined s) (ctor s), ONone)
+  | TInitFail, TP_init =>      (* "except BaseException": record, notify, return *)
+      Some (mk EXCEPTION_WHILE_INSTANTIATING_TASK TP_fin (run_count s) (stop_flag s) (slot s) (cur s)
+               (joined s) (ctor s), ONone)
   | TBeginRun, TP_wait =>
       match state s with
-      | RUNNING => Some (mk RUNNING TP_run (S (run_count s)) (stop_flag s) (slot s) (cur s) (joined s), ONone)
+      | RUNNING => Some (mk RUNNING TP_run (S (run_count s)) (stop_flag s) (slot s) (cur s) (joined s) (ctor s), ONone)
       | _ => None
       end
   | TExit, TP_wait =>          (* "if state != RUNNING: return" after leaving the wait loop *)
@@ -141,14 +177,14 @@ Definition step_int (s : st) (i : int) : option (st * out V) :=
   | TExit, TP_fin => Some (set_pc s TP_done, ONone)
   | TUpdate, TP_run =>
       match slot s with
-      | Some v => Some (mk (state s) (pc s) (run_count s) (stop_flag s) None v (joined s), OUpd true v)
+      | Some v => Some (mk (state s) (pc s) (run_count s) (stop_flag s) None v (joined s) (ctor s), OUpd true v)
       | None => Some (s, OUpd false (cur s))
       end
   | TPollStop, TP_run => Some (s, OBool (stop_flag s))
   | TFinishOk, TP_run | TFinishStopExc, TP_run =>
-      Some (mk TASK_COMPLETED_NORMALLY TP_fin (run_count s) (stop_flag s) (slot s) (cur s) (joined s), ONone)
+      Some (mk TASK_COMPLETED_NORMALLY TP_fin (run_count s) (stop_flag s) (slot s) (cur s) (joined s) (ctor s), ONone)
   | TFinishExc, TP_run =>
-      Some (mk EXCEPTION_WHILE_RUNNING_TASK TP_fin (run_count s) (stop_flag s) (slot s) (cur s) (joined s), ONone)
+      Some (mk EXCEPTION_WHILE_RUNNING_TASK TP_fin (run_count s) (stop_flag s) (slot s) (cur s) (joined s) (ctor s), ONone)
   | _, _ => None
   end.
 
